@@ -263,6 +263,16 @@ static std::string forth_run_T(const JV& st) {
       if (act == "run") err = vm->run(inputs);
       else if (act == "begin") vm->begin(inputs);
       else if (act == "step") err = vm->step();
+      else if (act == "stepall") {       // begin + single steps until the program is done (bounded)
+        vm->begin(inputs);
+        int64_t guard = 0;
+        while (vm->is_ready() && !vm->is_done() && err == ak::util::ForthError::none && guard++ < 100000) err = vm->step();
+      }
+      else if (act == "runall") {        // run, then resume after every pause until done (bounded)
+        err = vm->run(inputs);
+        int64_t guard = 0;
+        while (vm->is_ready() && !vm->is_done() && err == ak::util::ForthError::none && guard++ < 100000) err = vm->resume();
+      }
       else if (act == "resume") err = vm->resume();
       else if (act == "reset") vm->reset();
       else if (act.compare(0, 5, "call:") == 0) err = vm->call(act.substr(5));
@@ -275,7 +285,29 @@ static std::string forth_run_T(const JV& st) {
     catch (std::exception& e) { r += ",\"exc\":\"Exception\",\"msg\":" + jstr(first_line(e.what())) + "}"; }
     result += (first ? "" : ",") + r; first = false;
   }
-  return result + "]}";
+  result += "]";
+  if (geti(st, "rerun_decompiled", 0) != 0) {
+    // the decompiled program must behave identically (C19): compile it again and run it on the same input
+    std::string r = "{";
+    try {
+      ak::ForthMachineOf<T, I> vm2(vm->decompiled(), geti(st, "stack_max", 1024), geti(st, "recursion_max", 1024),
+                                   geti(st, "out_initial", 1024), 1.5);
+      std::map<std::string, std::shared_ptr<ak::ForthInputBuffer>> inputs2;
+      if (st.HasMember("inputs")) {
+        for (auto& m : st["inputs"].GetObject()) {
+          int64_t n = (int64_t)m.value.Size();
+          std::shared_ptr<void> ptr(new uint8_t[(size_t)(n == 0 ? 1 : n)], std::default_delete<uint8_t[]>());
+          for (int64_t i = 0; i < n; i++) reinterpret_cast<uint8_t*>(ptr.get())[i] = (uint8_t)m.value[(rj::SizeType)i].GetInt64();
+          inputs2[m.name.GetString()] = std::make_shared<ak::ForthInputBuffer>(ptr, 0, n);
+        }
+      }
+      ak::util::ForthError err = vm2.run(inputs2);
+      r += "\"err\":" + jstr(fortherr(err)) + "," + forth_state(vm2, innames) + "}";
+    }
+    catch (std::exception& e) { r += "\"exc\":\"Exception\",\"msg\":" + jstr(first_line(e.what())) + "}"; }
+    result += ",\"dec\":" + r;
+  }
+  return result + "}";
 }
 
 // ------------------------------------------------------------------ dispatch
